@@ -363,7 +363,7 @@ class ObjEvaluator(Evaluator):
             return env[node.id]
         if node.id in getattr(self.mod, "classes", {}):
             return ("class", node.id)
-        if node.id in ("open", "hasattr", "getattr", "setattr", "type", "dict", "print", "repr", "set", "object", "slice"):
+        if node.id in ("open", "hasattr", "getattr", "setattr", "type", "dict", "print", "repr", "set", "object", "slice", "hash", "globals", "property"):
             return ("builtin", node.id)
         try:
             return Evaluator.e_Name(self, node, env)
@@ -465,6 +465,8 @@ class ObjEvaluator(Evaluator):
                 for st2 in info["node"].body:
                     if st2 is st:
                         break
+                    if isinstance(st2, ast.FunctionDef):
+                        env0[st2.name] = ("closure", st2, {})
                     t2 = st2.targets[0] if isinstance(st2, ast.Assign) and len(st2.targets) == 1 else None
                     if isinstance(t2, ast.Name) and t2.id in cache:
                         env0[t2.id] = cache[t2.id]
@@ -516,28 +518,7 @@ class ObjEvaluator(Evaluator):
         m = getattr(base, "cls_mod", None)
         if m is None or m is self.mod or getattr(m, "rel", None) == self.mod.rel:
             return self
-        subs = self.__dict__.setdefault("_home_evaluators", {})
-        if m.rel not in subs:
-            sub = FullEvaluator(m, max_depth=self.max_depth)
-            sub.import_values = self.import_values
-            sub.import_policy = self.import_policy
-            sub.sign_policy = self.sign_policy
-            sub.threshold_policy = self.threshold_policy
-            sub.branch_policy = self.branch_policy
-            sub.close_policy = getattr(self, "close_policy", None)
-            dotted_mod = m.rel[:-3].replace("/", ".")
-            parent = self
-
-            def forward(name, args, kwargs, node, dotted_mod=dotted_mod, parent=parent):
-                # a call inside that module is, for the rule that watches the importer, a call of module.name
-                if parent.import_policy is not None:
-                    parent.events.append(("import", "%s.%s" % (dotted_mod, name), list(args)))
-                    return parent.import_policy("%s.%s" % (dotted_mod, name), args, kwargs, node)
-                return NotImplemented
-            sub.call_policy = forward
-            subs[m.rel] = sub
-        subs[m.rel].depth = self.depth
-        return subs[m.rel]
+        return self.evaluator_for(m)
 
     def object_attribute(self, base, attr, node):
         """attribute access on instances, named-tuple instances, classes and enumerations; NotImplemented for other values"""
@@ -612,6 +593,8 @@ class ObjEvaluator(Evaluator):
                     return ("boundmethod", ("class", owner), fn)
                 return ("boundmethod", base, fn)
             v = self.class_attr(owner, attr, node)
+            if isinstance(v, tuple) and len(v) == 2 and v[0] == "propertyobj":
+                return self.call_value(v[1], [base], node)       # NAME = property(getter) in the class body
             if v is not NotImplemented:
                 return v
         if isinstance(base, Obj):
@@ -769,16 +752,18 @@ class ObjEvaluator(Evaluator):
         if isinstance(f, tuple) and len(f) == 3 and f[0] == "foreignclass":
             from . import core as _core
             other = _core.module(f[1])
-            sub = FullEvaluator(other, max_depth=self.max_depth)
-            sub.import_values, sub.import_policy = self.import_values, self.import_policy
-            sub.depth = self.depth
-            return sub.instantiate(f[2], list(args), dict(kwargs), node)
+            return self.evaluator_for(other).instantiate(f[2], list(args), dict(kwargs), node)
         if isinstance(f, tuple) and f and f[0] == "class" and f[1] in getattr(self.mod, "classes", {}):
             return self.instantiate(f[1], list(args), dict(kwargs), node)
         if isinstance(f, tuple) and f and f[0] == "boundmethod":
             return self.call_bound(f[2], f[1], list(args), dict(kwargs), node)
         if isinstance(f, tuple) and f and f[0] == "pyfunc":
             return f[1](*args, **kwargs)
+        if isinstance(f, Obj) and getattr(f, "cls", None) is not None:
+            # an instance of a class that defines __call__
+            m_ = self.object_attribute(f, "__call__", node)
+            if m_ is not NotImplemented:
+                return self.dispatch_call(m_, args, kwargs, node)
         return Evaluator.dispatch_call(self, f, args, kwargs, node)
 
     def new_obj(self, name, cls=None, **attrs):
@@ -791,6 +776,9 @@ class ObjEvaluator(Evaluator):
     def instantiate(self, cname, args, kwargs, node):
         from .symeval import NTuple
         cls = self.mod.classes[cname]
+        home = self.home_evaluator(cls)
+        if home is not self:
+            return home.instantiate(cls.name, args, kwargs, node)
         info = self.class_info(cname)
         if info["kind"] == "namedtuple":
             if self.class_function(cname, "__new__") is not None or self.class_function(cname, "__init__") is not None:
@@ -828,10 +816,13 @@ class ObjEvaluator(Evaluator):
         return o
 
     def call_bound(self, fn, obj, args, kwargs, node):
+        home = self.home_evaluator(fn)
+        if home is not self:
+            return home.call_bound(fn, obj, args, kwargs, node)
         if self.depth >= self.max_depth:
             raise AnalysisError("E7: call depth exceeded at %s" % fn.name)
         a = fn.args
-        params = [x.arg for x in a.args]
+        params = [x.arg for x in list(getattr(a, "posonlyargs", [])) + list(a.args)]
         env = {}
         allargs = [obj] + list(args)
         if len(allargs) > len(params) and not a.vararg:
@@ -1123,6 +1114,22 @@ class ObjEvaluator(Evaluator):
         raise AnalysisError("E7: %s(%r) (line %d)" % (which, v, node.lineno))
 
     def builtin(self, name, args, kwargs, node):
+        if name == "property" and len(args) == 1 and not kwargs:
+            return ("propertyobj", args[0])
+        if name == "globals" and not args and not kwargs:
+            from .symeval import ModNS
+            return ModNS(self)
+        if name == "hash" and len(args) == 1 and not kwargs:
+            def hashable(v_):
+                from .symeval import is_tagged as _tg
+                if isinstance(v_, (list, dict, set, Arr, Opaque)) :
+                    return False
+                if isinstance(v_, tuple) and not _tg(v_):
+                    return all(hashable(x_) for x_ in v_)
+                return True
+            if not hashable(args[0]):
+                raise PyRaise("TypeError", node, "unhashable type")
+            return Opaque("hash(%s)" % vkey(args[0]))
         if name == "slice" and 1 <= len(args) <= 3 and not kwargs:
             ints = [None if a_ is None else const_int(a_) for a_ in args]
             if any(i_ is None and a_ is not None for i_, a_ in zip(ints, args)):
